@@ -221,11 +221,15 @@ def parse_interface_type(
         context.related_classes.append(
             RelatedClassData(class_name=class_name + type_.name, type_name=type_.name)
         )
+        # a fragment on an interface implemented by this one does not narrow the
+        # type: its fields belong to every class, it does not get a class of its own
+        implemented_interfaces = {interface.name for interface in type_.interfaces}
         fragments_types_names = sorted(
             {
                 f.type_condition.name.value
                 for f in inline_fragments + fragments_on_subtypes
                 if f.type_condition
+                and f.type_condition.name.value not in implemented_interfaces
             }
         )
         for fragment_type_name in fragments_types_names:
